@@ -2,6 +2,7 @@ package main
 
 import (
 	"bytes"
+	"regexp"
 	"context"
 	"fmt"
 	"os"
@@ -183,6 +184,207 @@ func runSMT(workdir, name, query string, timeoutS int, seed int, only []string) 
 var smtFileSeq int64
 
 func runSMTPost(workdir, name, query, post string, timeoutS int, seed int, only []string) SolverResult {
+	return runSMTCtx(context.Background(), workdir, name, query, post, timeoutS, seed, only)
+}
+
+var strOps = []string{"str.++", "str.substr", "str.replace", "str.at", "str.indexof", "str.contains", "str.prefixof", "str.suffixof", "str.in_re", "str.to_code", "str.from_code", "str.<"}
+
+// withoutStrings drops every assertion that mentions a string operation (string equalities and lengths stay).
+// Dropping premises is a sound weakening: `unsat` of the result implies `unsat` of the full query.
+func withoutStrings(query string) (string, bool) {
+	lines := strings.Split(query, "\n")
+	var kept []string
+	changed := false
+	for i, l := range lines {
+		isGoal := i == len(lines)-1 || (strings.HasPrefix(l, "(assert (not ") && i >= len(lines)-2)
+		drop := false
+		if strings.HasPrefix(l, "(assert ") && !isGoal {
+			for _, op := range strOps {
+				if strings.Contains(l, op) {
+					drop = true
+					break
+				}
+			}
+		}
+		if drop {
+			changed = true
+			continue
+		}
+		kept = append(kept, l)
+	}
+	return strings.Join(kept, "\n"), changed
+}
+
+var symTokRe = regexp.MustCompile(`[A-Za-z_][A-Za-z0-9_.!$#/\-]*`)
+
+func lineSymbols(l string) map[string]bool {
+	out := map[string]bool{}
+	for _, t := range symTokRe.FindAllString(l, -1) {
+		if strings.HasPrefix(t, "reach.") || strings.HasPrefix(t, "frontier") || strings.HasPrefix(t, "q.") || strings.HasPrefix(t, "fr.") || strings.HasPrefix(t, "str.") {
+			continue
+		}
+		switch t {
+		case "assert", "forall", "exists", "and", "or", "not", "ite", "select", "store", "let", "true", "false", "Int", "Bool", "String", "Array", "as", "const", "pattern",
+			"s-ptr", "s-off", "s-len", "s-cap", "mk-slice", "i-tag", "i-val", "mk-iface", "nilslice", "niliface", "to_real", "div", "mod", "abs":
+			continue
+		}
+		out[t] = true
+	}
+	return out
+}
+
+// focused keeps the goal, every quantifier-free assertion, and only those quantified assertions that share a symbol
+// with the goal's cone (the goal's symbols closed under the definitions `(assert (= name term))` of named terms).
+// Sound weakening (premises are only dropped); it removes the quantifier noise of unrelated invariants.
+func focused(query string, depth int) (string, bool) {
+	lines := strings.Split(query, "\n")
+	gi := -1
+	for i := len(lines) - 1; i >= 0; i-- {
+		if strings.HasPrefix(lines[i], "(assert (not ") {
+			gi = i
+			break
+		}
+	}
+	if gi < 0 {
+		return query, false
+	}
+	cone := lineSymbols(lines[gi])
+	defs := map[string]string{}
+	for i, l := range lines {
+		if i == gi || !strings.HasPrefix(l, "(assert (= ") || strings.Contains(l, "(forall ") {
+			continue
+		}
+		rest := l[len("(assert (= "):]
+		if k := strings.IndexAny(rest, " )"); k > 0 && !strings.HasPrefix(rest, "(") {
+			defs[rest[:k]] = l
+		}
+	}
+	for round := 0; round < 6; round++ {
+		grew := false
+		for name, l := range defs {
+			if cone[name] {
+				for s := range lineSymbols(l) {
+					if !cone[s] {
+						cone[s] = true
+						grew = true
+					}
+				}
+				delete(defs, name)
+			}
+		}
+		if !grew {
+			break
+		}
+	}
+	// facts about cone symbols: quantifier-free assertions mentioning a (non-hub) cone symbol pull their symbols in, `depth` rounds
+	if depth > 0 {
+		freq := map[string]int{}
+		var qf []map[string]bool
+		for i, l := range lines {
+			if i == gi || !strings.HasPrefix(l, "(assert ") || strings.Contains(l, "(forall ") || strings.Contains(l, "(exists ") {
+				continue
+			}
+			ls := lineSymbols(l)
+			qf = append(qf, ls)
+			for s := range ls {
+				freq[s]++
+			}
+		}
+		hub := func(s string) bool { return freq[s]*8 > len(qf) && freq[s] > 12 }
+		for round := 0; round < depth; round++ {
+			add := map[string]bool{}
+			for _, ls := range qf {
+				hit := false
+				for s := range ls {
+					if cone[s] && !hub(s) {
+						hit = true
+						break
+					}
+				}
+				if hit {
+					for s := range ls {
+						if !cone[s] {
+							add[s] = true
+						}
+					}
+				}
+			}
+			for s := range add {
+				cone[s] = true
+			}
+		}
+	}
+	var kept []string
+	changed := false
+	for i, l := range lines {
+		if i != gi && strings.HasPrefix(l, "(assert ") && (strings.Contains(l, "(forall ") || strings.Contains(l, "(exists ")) {
+			share := false
+			for s := range lineSymbols(l) {
+				if cone[s] {
+					share = true
+					break
+				}
+			}
+			if !share {
+				changed = true
+				continue
+			}
+		}
+		kept = append(kept, l)
+	}
+	return strings.Join(kept, "\n"), changed
+}
+
+// discharge races the full query against its string-free weakening; only the full query's `sat` counts.
+func discharge(workdir, name, query string, timeoutS int, seed int) SolverResult {
+	relaxed, changed := withoutStrings(query)
+	if !changed {
+		if _, fch := focused(query, 0); !fch {
+			return runSMT(workdir, name, query, timeoutS, seed, nil)
+		}
+	}
+	ctx, cancel := context.WithCancel(context.Background())
+	defer cancel()
+	type rr struct {
+		r    SolverResult
+		full bool
+	}
+	ch := make(chan rr, 4)
+	n := 2
+	go func() { ch <- rr{runSMTCtx(ctx, workdir, name, query, "(get-model)", timeoutS, seed, nil), true} }()
+	go func() { ch <- rr{runSMTCtx(ctx, workdir, name+".nostr", relaxed, "", timeoutS, seed, []string{"z3-new", "z3"}), false} }()
+	if foc, ch2 := focused(relaxed, 0); ch2 {
+		n++
+		go func() { ch <- rr{runSMTCtx(ctx, workdir, name+".focus", foc, "", timeoutS, seed, []string{"z3-new", "z3"}), false} }()
+	}
+	if foc, ch2 := focused(query, 2); ch2 {
+		n++
+		go func() { ch <- rr{runSMTCtx(ctx, workdir, name+".focus2", foc, "", timeoutS, seed, []string{"z3-new", "cvc5"}), false} }()
+	}
+	var full SolverResult
+	haveFull := false
+	for i := 0; i < n; i++ {
+		x := <-ch
+		if x.r.Status == "unsat" {
+			if !x.full {
+				x.r.Solver += " (weakened premises)"
+			}
+			return x.r
+		}
+		if x.full {
+			full, haveFull = x.r, true
+			if full.Status == "sat" {
+				return full
+			}
+		}
+	}
+	if haveFull {
+		return full
+	}
+	return SolverResult{Status: "unknown"}
+}
+
+func runSMTCtx(parent context.Context, workdir, name, query, post string, timeoutS int, seed int, only []string) SolverResult {
 	file := filepath.Join(workdir, fmt.Sprintf("%s.%d.smt2", sanitize(name), atomic.AddInt64(&smtFileSeq, 1)))
 	full := "(set-option :produce-models true)\n"
 	if seed != 0 {
@@ -190,7 +392,7 @@ func runSMTPost(workdir, name, query, post string, timeoutS int, seed int, only 
 	}
 	full += "(set-logic ALL)\n" + query + "\n(check-sat)\n" + post + "\n"
 	os.WriteFile(file, []byte(full), 0644)
-	ctx, cancel := context.WithCancel(context.Background())
+	ctx, cancel := context.WithCancel(parent)
 	defer cancel()
 	type res struct {
 		solver, status, out string
